@@ -21,6 +21,19 @@ theorem length_arith (f : Int → Int → Int) (sy sx : Shape) (D : List Int) (s
     (arith f sy sx D src).length = D.length := by
   simp [arith, kernel, length_foldl_kstep]
 
+theorem length_scatter (f : Int → Int → Int) (idx : List (Nat × Nat)) (D S : List Int) :
+    (scatter f idx D S).length = D.length := length_foldl_kstep f (some S) idx D
+
+theorem length_sliceBwK (dim off : Nat) (sy sx : Shape) (D S : List Int) :
+    (sliceBwK dim off sy sx D S).length = D.length := by
+  unfold sliceBwK; split <;> simp [length_arith, length_scatter]
+
+theorem length_fitTo (n : Nat) (D : List Int) : (fitTo n D).length = n := by
+  simp [fitTo]; omega
+
+theorem fitTo_self (D : List Int) : fitTo D.length D = D := by
+  simp [fitTo]
+
 theorem foldl_alias (f : Int → Int → Int) (D0 : List Int) (L : List (Nat × Nat)) (D : List Int)
     (hdiag : ∀ p ∈ L, p.1 = p.2) (hnd : L.Pairwise (fun p q => p.1 ≠ q.1))
     (hsame : ∀ p ∈ L, D.getD p.1 0 = D0.getD p.1 0) :
